@@ -147,6 +147,59 @@ func init() {
 			out.Infra = append(out.Infra, err.Error())
 		}
 	}
+	// every token sequence of MCTokens: most of them are refused, each at some token
+	replayFamilies["errtexts"] = func(args []string) {
+		c := parseCommon("errtexts", args, nil)
+		out := NewOut(c.out, c.prop)
+		defer out.Close()
+		idx := 0
+		err := readTLCLines(c.in, func(raw []byte) {
+			var cc corruptCase
+			if err := json.Unmarshal(raw, &cc); err != nil || cc.Kind != "case" || cc.Q == "" {
+				return
+			}
+			idx++
+			if (idx-1)%c.shards != c.shard {
+				return
+			}
+			id := shortHash(raw)
+			if c.only != "" && c.only != id {
+				return
+			}
+			out.Stats.Cases++
+			out.Stats.distinct(cc.Q, true)
+			vs := []struct{ lead, trail, pad int }{{0, 0, -1}, {1, 4, 0}, {4, 1, 12}}
+			v := vs[idx%3]
+			q := strings.Repeat(" ", v.lead) + cc.Q + strings.Repeat(" ", v.trail)
+			o, _ := RunOn(q, nil, RunOpts{Mode: "row", BSize: 2, Cache: true, NoLog: true})
+			out.Stats.Evaluations++
+			if o.err == nil || o.Phase == "panic" {
+				return
+			}
+			var se *kvql.SyntaxError
+			var ee *kvql.ExecuteError
+			pos, kind := 0, ""
+			if errors.As(o.err, &se) {
+				pos, kind = se.Pos, "syntax"
+			} else if errors.As(o.err, &ee) {
+				pos, kind = ee.Pos, "execute"
+			} else {
+				return
+			}
+			s, p := renderErr(o.err, q, v.pad)
+			effPad := v.pad
+			if effPad < 0 {
+				effPad = kvql.DefaultErrorPadding
+			}
+			if out.Stats.Cases%3000 == 1 {
+				out.Stats.sample(map[string]any{"query": q, "pos": pos, "kind": kind, "rendered": s})
+			}
+			out.Trace("errs", errTrace{ID: id, Q: q, QB: bi([]byte(q)), Pos: pos, Pad: effPad, EKind: kind, TokPos: tokenStarts(q), Out: bi([]byte(s)), Panic: p})
+		})
+		if err != nil {
+			out.Infra = append(out.Infra, err.Error())
+		}
+	}
 	recordFamilies["errs"] = func(args []string) {
 		c := parseCommon("errs", args, nil)
 		out := NewOut(c.out, c.prop)
